@@ -74,7 +74,9 @@ TFreed == IsEvent("Freed") /\ m.pc = "freed" /\ UNCHANGED vars
 
 TWTop == /\ IsEvent("WTop") /\ WTop(Ev.w)
          /\ (Ev.ack = 1) = (t[Ev.w].state = "STOP") /\ (Ev.ack = 1 => Ev.nsig >= 1)
-         /\ t'[Ev.w].snapState = StateName(Ev.a)
+         \* a = STOP: the worker was stopped before it noticed its Block and leaves through the end-of-Block path
+         /\ IF Ev.a = 3 THEN t'[Ev.w].pc = "finthr" /\ t'[Ev.w].result = "STOP"
+            ELSE t'[Ev.w].snapState = StateName(Ev.a) /\ t'[Ev.w].pc # "finthr"
 TWWake == IsEvent("WWake") /\ t[Ev.w].pc = "park_top" /\ WWake(Ev.w)
 TWEncInit == IsEvent("WEncInit") /\ WEncInit(Ev.w, FALSE, FALSE)
 TWError == IsEvent("WError") /\ WEncInit(Ev.w, TRUE, FALSE) /\ Ev.nsig >= 1
@@ -108,7 +110,7 @@ Logged == TReset \/ TCall \/ TRet \/ TProgress \/ TBlkRead \/ TGtPop \/ TCreate 
           \/ TWTop \/ TWWake \/ TWEncInit \/ TWError \/ TWEncSyncBegin \/ TWEncSync \/ TWEncCode \/ TWEncWaitFin
           \/ TWFinThr \/ TWFinCoder
 
-Silent == /\ (Run \/ EncIn \/ Decide \/ (EndSignal /\ m.loopI >= m.nInit) \/ (\E w \in W : WAfter(w)) \/ RWait \/ RWaitWake)
+Silent == /\ (Run \/ EncIn \/ Decide \/ (EndSignal /\ m.loopI >= m.nInit) \/ (\E w \in W : WAfter(w)) \/ RWait \/ RWaitWake \/ RQuiesceWake)
           /\ UNCHANGED l
 
 TNext == Logged \/ Silent
